@@ -38,7 +38,7 @@ for prop,mut,verdict,t in o:
 s=seeded()
 out.append("\n**Seeded changes** (`seeded/<id>/`): written by independent sub-agents that were given only the property text and a scratch worktree, each confirmed in a scratch worktree with `seeded/confirm.sh` (410 existing tests pass with the patch; the demo test fails with it and passes without). Final run of the registered quick checks against each (`seeded/run_seeded.sh`, results in `seeded/results_final.txt`):\n")
 out.append("| id | what the change does / needs | detected by (quick) | first signature |\n|---|---|---|---|")
-nd=0
+nd=0; nobs=0; nown=0
 for sid,m,rs in s:
     summ=(m.get('needs_to_manifest') or m.get('summary') or '')
     summ=re.sub(r'\s+',' ',summ)[:230].replace('|','/')
@@ -49,9 +49,15 @@ for sid,m,rs in s:
         if verdict=='DETECTED':
             ok=True
             if not sig: sig=sigs.split(' ')[0]
+    if m.get('status','').startswith('obsolete'):
+        nobs+=1
+        out.append("| %s | %s | no longer applies after fix b2edbef (it edits the branch the fix removed); detected by its property's quick check before the fix | `` |" % (sid,summ))
+        continue
     nd+=ok
+    own=any(v=='DETECTED' and prop==sid.split('-')[0] for prop,tier,v,t,sg in rs)
+    nown+=own
     out.append("| %s | %s | %s | `%s` |" % (sid,summ,'; '.join(cell) or 'not run',sig))
-out.append("\n%d of %d seeded changes are detected by at least one registered quick check." % (nd,len(s)))
+out.append("\n%d seeded changes, %d of them obsolete after a fix; of the remaining %d, %d are detected by their own property's quick check and %d by at least one registered quick check (C10-1 by C08; C03-r5, which does not violate C03 as stated, by C12 and C13)." % (len(s),nobs,len(s)-nobs,nown,nd))
 txt='\n'.join(out)
 p=V+'/DESIGN.md'
 d=open(p).read()
